@@ -135,6 +135,49 @@ func descendingPriority(cc *ssa.CallCommon) string {
 			if !ok || len(r.Results) != 1 {
 				continue
 			}
+			// slices.SortStableFunc(s, func(a, b T) int { return cmp.Compare(b.Priority, a.Priority) })
+			if cc, isCall := r.Results[0].(*ssa.Call); isCall && strings.HasPrefix(calleeName(cc.Common()), "cmp.Compare") && len(cc.Common().Args) == 2 {
+				pi := func(v ssa.Value) int {
+					v = stripConv(v)
+					if !loadsField(v, "Priority") {
+						return -1
+					}
+					for d := 0; d < 4; d++ {
+						switch x := v.(type) {
+						case *ssa.Field:
+							v = x.X
+							continue
+						case *ssa.UnOp:
+							v = x.X
+							continue
+						case *ssa.FieldAddr:
+							v = x.X
+							continue
+						}
+						break
+					}
+					if al, ok := v.(*ssa.Alloc); ok {
+						if sv := singleStore(al); sv != nil {
+							v = sv
+						}
+					}
+					for k, p := range cl.Params {
+						if v == ssa.Value(p) {
+							return k - off
+						}
+					}
+					return -1
+				}
+				x, y := pi(cc.Common().Args[0]), pi(cc.Common().Args[1])
+				switch {
+				case x == 1 && y == 0:
+					return "" // compare(b, a): descending, ties keep their order under a stable sort
+				case x == 0 && y == 1:
+					return "comparator orders ascending: lower priority first"
+				default:
+					return "comparator does not compare the Priority fields of its two arguments"
+				}
+			}
 			cmp, ok := r.Results[0].(*ssa.BinOp)
 			if !ok {
 				return "comparator does not return a single comparison"
@@ -258,14 +301,10 @@ func (c *Ctx) DispatchOrder() []core.Ob {
 		if firstLoadOfField(f, generic) == nil || firstLoadOfField(f, specific) == nil {
 			continue
 		}
-		dyn := callsIn(f, func(n string, cc *ssa.CallCommon) bool {
-			if cc.IsInvoke() || cc.StaticCallee() != nil {
-				return false
-			}
-			_, isB := cc.Value.(*ssa.Builtin)
-			return !isB
-		})
-		if len(dyn) > 0 {
+		if f.Parent() != nil {
+			continue
+		}
+		if len(dynamicCallsWithClosures(f)) > 0 {
 			fn = f
 			nd++
 		}
@@ -286,18 +325,21 @@ func (c *Ctx) DispatchOrder() []core.Ob {
 	obs := []core.Ob{o}
 	// every handler call's error is checked and returned immediately
 	k := 0
+	// the calls of a local closure that runs handlers are handler calls too: their error must stop dispatch as well
+	var handlerCalls []ssa.CallInstruction
+	handlerCalls = append(handlerCalls, dynamicCallsWithClosures(fn)...)
 	for _, ci := range callsIn(fn, func(n string, cc *ssa.CallCommon) bool {
-		if cc.IsInvoke() || cc.StaticCallee() != nil {
-			return false
-		}
-		_, isB := cc.Value.(*ssa.Builtin)
-		return !isB
+		g := cc.StaticCallee()
+		return g != nil && g.Parent() == fn && len(dynamicCallsWithClosures(g)) > 0
 	}) {
+		handlerCalls = append(handlerCalls, ci)
+	}
+	for _, ci := range handlerCalls {
 		k++
 		e := c.ordOb(fmt.Sprintf("dispatch-order:handler-error#%d", k), "a handler's error stops dispatch: the next block returns when err != nil", fn)
 		e.Pos = c.P.Pos(ci.Pos())
 		call, _ := ci.(*ssa.Call)
-		if call == nil || !errCheckedThenReturn(call) {
+		if call == nil || !(errCheckedThenReturn(call) || returnedDirectly(call)) {
 			e.Status, e.Got = core.Violated, "handler result is not tested with an immediate return on error"
 		}
 		obs = append(obs, e)
@@ -308,6 +350,38 @@ func (c *Ctx) DispatchOrder() []core.Ob {
 		obs = append(obs, e)
 	}
 	return obs
+}
+
+// dynamicCallsWithClosures: calls through function values in f and in the closures it declares.
+func dynamicCallsWithClosures(f *ssa.Function) []ssa.CallInstruction {
+	out := callsIn(f, func(n string, cc *ssa.CallCommon) bool {
+		if cc.IsInvoke() || cc.StaticCallee() != nil {
+			return false
+		}
+		_, isB := cc.Value.(*ssa.Builtin)
+		return !isB
+	})
+	for _, an := range f.AnonFuncs {
+		out = append(out, dynamicCallsWithClosures(an)...)
+	}
+	return out
+}
+
+// returnedDirectly: the call's (error) result is what the function returns at once.
+func returnedDirectly(call *ssa.Call) bool {
+	if call.Referrers() == nil {
+		return false
+	}
+	for _, r := range *call.Referrers() {
+		if ret, ok := r.(*ssa.Return); ok {
+			for _, v := range ret.Results {
+				if v == ssa.Value(call) {
+					return true
+				}
+			}
+		}
+	}
+	return false
 }
 
 // reaches: a path from a to b exists.
@@ -421,6 +495,38 @@ func marshalID(v ssa.Value) string {
 	return "?"
 }
 
+// sendWrapperID: the call is to a local closure or helper of the form
+// send(id, fields...) { return conn.WritePacket(pk.Marshal(id, fields...)) }: the packet id it is given.
+func sendWrapperID(ci ssa.CallInstruction) (string, bool) {
+	g := ci.Common().StaticCallee()
+	if g == nil || len(g.Blocks) == 0 {
+		return "", false
+	}
+	for _, b := range g.Blocks {
+		for _, in := range b.Instrs {
+			wc, ok := in.(ssa.CallInstruction)
+			if !ok || !strings.HasSuffix(calleeName(wc.Common()), "/net.(Conn).WritePacket") || len(wc.Common().Args) < 2 {
+				continue
+			}
+			mc, ok := wc.Common().Args[1].(*ssa.Call)
+			if !ok || !strings.Contains(calleeName(mc.Common()), "net/packet.Marshal") || len(mc.Common().Args) == 0 {
+				continue
+			}
+			idv := stripConv(mc.Common().Args[0])
+			for k, p := range g.Params {
+				if idv == ssa.Value(p) && k < len(ci.Common().Args) {
+					a := stripConv(ci.Common().Args[k])
+					if c, ok := a.(*ssa.Const); ok && c.Value != nil {
+						return c.Value.ExactString(), true
+					}
+					return "?", true
+				}
+			}
+		}
+	}
+	return "", false
+}
+
 // CompressionSwitch: the server writes the set-compression packet, then
 // SetThreshold, with no other packet I/O in between; the bot applies the
 // threshold in its set-compression case.
@@ -458,10 +564,11 @@ func (c *Ctx) CompressionSwitch() []core.Ob {
 				continue
 			}
 			n := calleeName(ci.Common())
+			wrapID, isWrap := sendWrapperID(ci)
 			switch {
-			case strings.HasSuffix(n, "/net.(Conn).WritePacket"):
-				id := ""
-				if len(ci.Common().Args) > 1 {
+			case strings.HasSuffix(n, "/net.(Conn).WritePacket") || isWrap:
+				id := wrapID
+				if !isWrap && len(ci.Common().Args) > 1 {
 					id = marshalID(ci.Common().Args[1])
 				}
 				if id == idv.String() {
